@@ -45,6 +45,7 @@ def qt(n):
 def ty_of_qual(q):
     q = q.replace("const ", "").replace("&", "").strip()
     if q == "int": return "int"
+    if q in ("unsigned int", "unsigned long", "unsigned long int", "unsigned"): return "uint"
     if q == "double": return "double"
     if q == "bool": return "bool"
     if "complex<double>" in q: return "complex"
@@ -55,7 +56,7 @@ def ty(n):
     return ty_of_qual(qt(n))
 
 
-GTYPE = {"int": "Z", "double": "T", "bool": "bool", "complex": "(T * T)"}
+GTYPE = {"int": "Z", "uint": "Z", "double": "T", "bool": "bool", "complex": "(T * T)"}
 
 
 def lit_of_token(tok):
@@ -88,15 +89,47 @@ class Fn:
         self.decl = None; self.exits = False; self.rtype = None; self.params = []
 
 
+class Ext:
+    """a library function the translated code merely calls (another property's territory): it becomes a
+    parameter `vname` of every generated definition; exits=True: it returns `res T` and a call is sequenced with rbind"""
+    def __init__(self, cname, ptypes, vname, rtype="double", exits=True):
+        self.cname, self.ptypes, self.vname, self.rtype, self.exits = cname, tuple(ptypes), vname, rtype, exits
+
+
 class Tr:
-    def __init__(self, src_text, fns):
-        self.src = src_text; self.fns = fns
+    def __init__(self, src_text, fns, exts=(), pi=False):
+        self.src = src_text; self.fns = fns; self.exts = list(exts); self.pi = pi
+        self.hoist = []; self.nh = 0        # calls that can terminate the process, hoisted out of the current expression
+
+    def lead(self):
+        """the parameters every generated definition takes after Ops (extended mode only)"""
+        return (["pi_c"] if self.pi else []) + [x.vname for x in self.exts]
+
+    def wrap(self, body, mark):
+        """sequence the calls hoisted since `mark` (in order of appearance) in front of `body` (a res-typed term)"""
+        hs = self.hoist[mark:]; del self.hoist[mark:]
+        for v, call in reversed(hs): body = f"(rbind {call} (fun {v} => {body}))"
+        return body
+
+    def intval(self, n):
+        """the integer value of a literal expression (possibly under casts / parentheses), or None"""
+        while n["kind"] in ("ImplicitCastExpr", "ParenExpr", "CStyleCastExpr", "CXXStaticCastExpr", "CXXFunctionalCastExpr"): n = n["inner"][-1]
+        if n["kind"] == "IntegerLiteral": return int(n["value"])
+        if n["kind"] == "FloatingLiteral" and "offset" in n["range"]["begin"]:
+            b = n["range"]["begin"]; tok = self.src[b["offset"]: b["offset"] + b["tokLen"]]
+            try: q = Fraction(tok)
+            except Exception: return None
+            return int(q) if q.denominator == 1 and abs(q) < 1000 else None
+        return None
 
     def var(self, name): return "v_" + name
 
     def lit(self, n, suffix=""):
         b = n["range"]["begin"]
-        if "offset" not in b: raise Unsupported("literal without a source offset (macro?)")
+        if "offset" not in b:
+            x = b.get("expansionLoc", {})
+            if self.pi and "offset" in x and self.src[x["offset"]: x["offset"] + x.get("tokLen", 0)] == "M_PI": return "pi_c"
+            raise Unsupported("literal without a source offset (macro?)")
         tok = self.src[b["offset"]: b["offset"] + b["tokLen"]]
         if suffix and tok.endswith(suffix): tok = tok[:-len(suffix)]
         return lit_of_token(tok)
@@ -114,13 +147,18 @@ class Tr:
             ck = n.get("castKind"); inner = n["inner"][-1]
             if ck in ("LValueToRValue", "NoOp", "ConstructorConversion"): return self.E(inner)
             if ck == "IntegralToFloating":
-                if ty(inner) != "int": raise Unsupported(f"int->double cast of a {ty(inner)}")
+                if ty(inner) not in ("int", "uint"): raise Unsupported(f"int->double cast of a {ty(inner)}")
                 return f"(nofZ Ops {self.E(inner)})"
-            raise Unsupported(f"cast {ck}")
+            if ck == "IntegralCast" and ty(n) == "uint" and ty(inner) in ("int", "uint"):
+                v = self.intval(inner)
+                return self.E(inner) if ty(inner) == "uint" or (v is not None and v >= 0) else f"(gu32 {self.E(inner)})"
+            if ck == "IntegralCast" and ty(n) == "int" and ty(inner) == "uint":
+                return self.E(inner)          # unsigned -> int: the identity below 2^31 (the case protocols stay below it)
+            raise Unsupported(f"cast {ck} from {qt(inner)} to {qt(n)}")
         if k in ("ParenExpr", "ExprWithCleanups", "MaterializeTemporaryExpr", "ConstantExpr", "CXXBindTemporaryExpr"):
             return self.E(n["inner"][0])
         if k == "IntegerLiteral":
-            if ty(n) != "int": raise Unsupported(f"integer literal of type {qt(n)}")
+            if ty(n) not in ("int", "uint"): raise Unsupported(f"integer literal of type {qt(n)}")
             return f"({n['value']})%Z"
         if k == "FloatingLiteral":
             if ty(n) != "double": raise Unsupported(f"floating literal of type {qt(n)}")
@@ -157,6 +195,12 @@ class Tr:
                      "<": "Z.ltb", "<=": "Z.leb", ">": "Z.gtb", ">=": "Z.geb"}
                 if op == "!=": return f"(negb (Z.eqb {A} {B}))"
                 if op in m: return f"({m[op]} {A} {B})"
+            if ta == "uint" and tb == "uint":
+                m = {"/": "Z.quot", "%": "Z.rem", "==": "Z.eqb", "<": "Z.ltb", "<=": "Z.leb", ">": "Z.gtb", ">=": "Z.geb"}
+                w = {"+": "Z.add", "-": "Z.sub", "*": "Z.mul"}
+                if op == "!=": return f"(negb (Z.eqb {A} {B}))"
+                if op in m: return f"({m[op]} {A} {B})"
+                if op in w: return f"(gu32 ({w[op]} {A} {B}))"
             if ta == "double" and tb == "double":
                 m = {"+": "nadd", "-": "nsub", "*": "nmul", "/": "ndiv", "<": "nltb", "<=": "nleb", "==": "neqb"}
                 if op == ">": return f"(nltb Ops {B} {A})"
@@ -173,12 +217,27 @@ class Tr:
             m = {"sqrt": "nsqrt", "fabs": "nabs", "exp": "nexp", "log": "nln", "log10": "nlog10", "sin": "nsin", "cos": "ncos",
                  "acos": "nacos", "floor": "nfloor", "erf": "nerf"}
             if f in m and ats == ["double"]: return f"({m[f]} Ops {args[0]})"
+            if f == "pow" and ats == ["double", "double"] and (self.exts or self.pi):
+                # extended mode: an integer-valued exponent (a literal such as 2.0, or an integer expression converted to double) is npowi
+                e = raw[1]
+                while e["kind"] in ("ParenExpr",): e = e["inner"][0]
+                v = self.intval(e)
+                if v is not None and e["kind"] != "ImplicitCastExpr": return f"(npowi Ops {args[0]} ({v})%Z)"
+                if e["kind"] == "ImplicitCastExpr" and e.get("castKind") == "IntegralToFloating": return f"(npowi Ops {args[0]} {self.E(e['inner'][-1])})"
             if f == "pow" and ats == ["double", "double"]: return f"(npow Ops {args[0]} {args[1]})"
             if f in ("max", "min") and ats == ["double", "double"]: return f"(n{f} Ops {args[0]} {args[1]})"
+            for x in self.exts:
+                if x.cname == f and list(x.ptypes) == ats:
+                    call = f"({x.vname} {' '.join(args)})"
+                    if not x.exits: return call
+                    self.nh += 1; v = f"h{self.nh}"; self.hoist.append((v, call)); return v
             for g in self.fns:
                 if g.cname == f and list(g.ptypes) == ats:
-                    if g.exits: raise Unsupported(f"call of {f}, which can terminate the process, inside an expression")
-                    return f"({g.gname} Ops {' '.join(args)})"
+                    call = f"({g.gname} Ops {' '.join(self.lead() + args)})"
+                    if g.exits:
+                        if not (self.exts or self.pi): raise Unsupported(f"call of {f}, which can terminate the process, inside an expression")
+                        self.nh += 1; v = f"h{self.nh}"; self.hoist.append((v, call)); return v
+                    return call
             raise Unsupported(f"call of {f}({', '.join(ats)})")
         if k == "CXXOperatorCallExpr":
             opn, _ = self.callee(n["inner"][0]); raw = n["inner"][1:]
@@ -198,8 +257,9 @@ class Tr:
         s, rest = stmts[0], stmts[1:]
         k = s["kind"]
         if k == "ReturnStmt":
-            e = self.E(s["inner"][0])
-            return f"Ok {e}" if fn.exits else e
+            mark = len(self.hoist); e = self.E(s["inner"][0])
+            if len(self.hoist) > mark and not fn.exits: raise Unsupported("call that can terminate the process in a function that cannot")
+            return self.wrap(f"Ok {e}", mark) if fn.exits else e
         if k == "BreakStmt":
             if kbreak is None: raise Unsupported("break outside switch")
             return kbreak
@@ -211,12 +271,16 @@ class Tr:
                 if d["kind"] != "VarDecl" or ty(d) not in ("int", "double", "bool") or "inner" not in d:
                     raise Unsupported(f"local declaration {d.get('name')} : {qt(d)}")
                 if "static" in d.get("storageClass", ""): raise Unsupported("static local")
-                out_rest = f"(let {self.var(d['name'])} := {self.E(d['inner'][0])} in {out_rest})"
+                mark = len(self.hoist); ee = self.E(d['inner'][0])
+                if len(self.hoist) > mark and not fn.exits: raise Unsupported("call that can terminate the process in a function that cannot")
+                out_rest = self.wrap(f"(let {self.var(d['name'])} := {ee} in {out_rest})", mark)
             return out_rest
         if k == "IfStmt":
             parts = s["inner"]
             if s.get("hasVar") or s.get("hasInit"): raise Unsupported("if with declaration")
-            c = self.E(parts[0]); after = self.S(rest, knext, kbreak, fn)
+            mark = len(self.hoist); c = self.E(parts[0])
+            if len(self.hoist) > mark: raise Unsupported("call that can terminate the process in a condition")
+            after = self.S(rest, knext, kbreak, fn)
             th = self.S([parts[1]], after, kbreak, fn)
             el = self.S([parts[2]], after, kbreak, fn) if len(parts) > 2 else after
             return f"(if {c} then {th} else {el})"
@@ -271,8 +335,18 @@ End Cplx.
 """
 
 
-def translate_all(src, fns, incs):
-    """fns: list of Fn, callees before callers.  Returns the text of the generated .v file."""
+def refs(n, acc):
+    if isinstance(n, dict):
+        if n.get("kind") == "DeclRefExpr": acc.add(n.get("referencedDecl", {}).get("name"))
+        for c in n.get("inner", []): refs(c, acc)
+    return acc
+
+
+def translate_all(src, fns, incs, exts=(), pi=False):
+    """fns: list of Fn, callees before callers.  Returns the text of the generated .v file.
+    Extended mode (exts non-empty or pi=True): every generated definition takes, after Ops, the parameter pi_c (the
+    macro M_PI) when pi=True and one parameter per Ext; unsigned arithmetic wraps (gu32); pow with an integer-valued
+    exponent is npowi; calls that can terminate the process are sequenced with rbind in order of appearance."""
     text = open(src).read()
     filters = sorted(set(f.cname for f in fns))
     with ThreadPoolExecutor(len(filters)) as ex:
@@ -288,18 +362,26 @@ def translate_all(src, fns, incs):
             raise Unsupported(f"{len(cands)} definitions of libphysica::{f.cname}({', '.join(f.ptypes)}) found in {src}")
         d = cands[0]
         f.decl = d; f.exits = contains_exit(d)
+        called = refs(d, set())
+        if any(x.exits and x.cname in called for x in exts) or any(g.exits and g.cname in called for g in fns if g is not f and g.decl is not None):
+            f.exits = True
         f.rtype = ty_of_qual(qt(d).split("(")[0])
         if f.rtype not in GTYPE: raise Unsupported(f"{f.cname} returns {f.rtype}")
         f.params = [(p["name"], ty(p)) for p in d["inner"] if p["kind"] == "ParmVarDecl"]
         for p in d["inner"]:
             if p["kind"] == "ParmVarDecl" and "inner" in p and False: pass
-    tr = Tr(text, fns)
+    tr = Tr(text, fns, exts, pi)
     out = [PRELUDE % os.path.join("src", os.path.basename(src))]
+    if exts or pi: out.append("Definition gu32 (k : Z) : Z := k mod 4294967296.\n")
+    def ext_type(x):
+        r = GTYPE[x.rtype]; r = f"res {r}" if x.exits else r
+        return " -> ".join([GTYPE[t] for t in x.ptypes] + [r])
+    lead = "".join(["(pi_c : T) "] * bool(pi) + [f"({x.vname} : {ext_type(x)}) " for x in exts])
     for f in fns:
         body = [c for c in f.decl["inner"] if c["kind"] == "CompoundStmt"][0]
         g = tr.S(body.get("inner", []), "FALLOFF", None, f)
         if "FALLOFF" in g: raise Unsupported(f"control can reach the end of {f.cname} without a return")
-        ps = " ".join(f"({tr.var(n)} : {GTYPE[t]})" for n, t in f.params)
+        ps = lead + " ".join(f"({tr.var(n)} : {GTYPE[t]})" for n, t in f.params)
         rt = GTYPE[f.rtype]
         if f.exits: rt = f"res {rt}"
         line = f.decl.get("loc", {}).get("line", "?")
